@@ -73,6 +73,15 @@ for _mk, _parser, _sel in [
     _b = [e.get('id') for e in soupsieve.select(_sel, _soup)]
     _c = _soup.select_one(_sel)
     _out.append([_a, _b, _c.get('id') if _c is not None else None])
+# the same document under every HTML tree builder: each forwards its own prefix map to soupsieve ({} or {'xml': ...})
+for _parser in ('html.parser', 'lxml', 'html5lib'):
+    _soup = BeautifulSoup('<html lang="de"><body><p id="1" lang="en">a</p><div id="d" dir="rtl"><p id="2"><b id="3">x</b></p></div>'
+                          '<p id="4" lang="fr-CA">c</p><input id="5" type="checkbox" checked><a id="6" href="u">l</a></body></html>', _parser)
+    for _sel in ('p:lang(en), :lang(de) b', 'p:not(:lang(fr))', ':dir(rtl) > p, :checked, :link', 'p:lang("*-CA"), [lang|=en]'):
+        _a = [e.get('id') for e in _soup.select(_sel)]
+        _b = [e.get('id') for e in soupsieve.select(_sel, _soup)]
+        _c = _soup.select_one(_sel)
+        _out.append([_a, _b, _c.get('id') if _c is not None else None])
 # optional arguments travel through Beautiful Soup's glue code (which passes them positionally)
 _soup = BeautifulSoup('<ul><li id="1"/><li id="2"/><li id="3"/><li id="4"/></ul>', 'html.parser')
 for _lim in (1, 2, 3, 0):
